@@ -15,7 +15,7 @@ from hv.builders import vdi as bvdi
 from hv.builders import vhd as bvhd
 from hv.builders import vhdx as bvhdx
 from hv.builders import vmdk as bvmdk
-from hv.core import Outcome, lib
+from hv.core import DEBUG_LOG_ENV, Outcome, lib
 from hv.props import c01, c02, c03, c04, c05, c06
 
 ID = "C14"
@@ -51,8 +51,10 @@ REPLAY_ALL_VARIANTS = True  # stored reproductions are re-run under every locale
 
 def variants(tier):
     # what the parsers expose must not depend on the process locale / default text encoding
-    return [{"name": "default", "env": {}},
-            {"name": "c-locale", "env": {"LC_ALL": "C", "LANG": "C", "PYTHONCOERCECLOCALE": "0", "PYTHONUTF8": "0"}}]
+    # ... nor on the package's logging switches
+    return [{"name": "default", "env": {}, "shards": 7},
+            {"name": "c-locale", "env": {"LC_ALL": "C", "LANG": "C", "PYTHONCOERCECLOCALE": "0", "PYTHONUTF8": "0"}, "shards": 6},
+            {"name": "debug-logging", "env": DEBUG_LOG_ENV, "args": {"budget_scale": 0.2}, "shards": 3}]
 
 
 def scratch_dir():
@@ -67,6 +69,8 @@ def utf8_name(draw, max_bytes):
     s = draw(st.text(alphabet=TEXT, min_size=1, max_size=max(1, n)))
     while len(s.encode()) > n:
         s = s[:-1]
+    if draw(st.booleans()):
+        s += "a" * (n - len(s.encode()))  # exactly the drawn number of bytes (1023 is the longest name the format allows)
     return s or "b"
 
 
@@ -107,6 +111,7 @@ def qcow2_meta_spec(draw, tier):
         spec["backing"] = {"name": name, "format": fmt, "length": spec["size"]}
         spec["backing_mode"] = "object"
         spec["backing_name_gap"] = draw(st.sampled_from([0, 0, 1]))
+        spec["backing_name_at_end"] = draw(st.sampled_from([False, False, True]))  # the name ends with the first cluster
     if spec["version"] == 3 and draw(st.integers(0, 3)) == 0:
         spec["data_file"] = True
         spec["data_file_name"] = draw(st.sampled_from(["data.raw", "d", "ext-" + "x" * 20]))
@@ -366,11 +371,12 @@ class Checks:
                 return
             try:
                 Checks._vhdx_common(v, meta, out)
-                eq(out, "vhdx", "parent_locator.entries", dict(v.parent_locator.entries), dict(im["locator"]))
+                ploc = getattr(v, "parent_locator", None)
+                eq(out, "vhdx", "parent_locator.entries", dict(ploc.entries) if ploc is not None else None, dict(im["locator"]))
                 out.nontrivial = len(im["locator"]) >= 2
                 out.cls(f"locator={min(len(im['locator']), 4)}", "layout-" + im.get("locator_layout", "interleaved"))
             finally:
-                if v.parent is not None:
+                if getattr(v, "parent", None) is not None:
                     v.parent.fh.close()
         finally:
             shutil.rmtree(d, ignore_errors=True)
